@@ -164,3 +164,65 @@ Theorem repaired_witnesses_ok :
   (exists t, to_tk repaired f30_witness = Ok t /\ routing_ok f30_witness t = false).
 Proof. exact repaired_witnesses. Qed.
 Print Assumptions repaired_witnesses_ok.
+
+(* ---- routing theorems (proofs in Tk/TkRouting.v) ---- *)
+Require Import DV.Tk.TkRouting.
+
+(* (1) to_tk: outside the trigger predicates computed by the model (F30; F36 = arity change;
+   F37 = override after post-processing; F10, F31, F32, F34 when their switch is off) every
+   output bit and every post-selection constraint of the exported circuit has the provenance
+   the circuit gives it.  For EVERY setting of the switches. *)
+Theorem to_tk_routing_trigger_free : forall fx, to_tk_routing_trigger_free_stmt fx.
+Proof. exact TkRouting.to_tk_routing_trigger_free. Qed.
+Print Assumptions to_tk_routing_trigger_free.
+
+(* the same without the typing hypothesis, and for arbitrary layer lists without Ket(1) *)
+Theorem to_tk_routing_trigger_free_any : forall fx c t,
+  to_tk fx c = Ok t -> no_trigger (to_tk_flags fx c) = true -> routing_ok c t = true.
+Proof. exact TkRouting.to_tk_routing_trigger_free_any. Qed.
+Print Assumptions to_tk_routing_trigger_free_any.
+
+Theorem to_tk_routing_layers : forall fx dom ls s',
+  ket_free ls = true -> to_tk_layers fx dom st0 ls = Ok s' ->
+  no_trigger (flags_layers fx dom st0 fl0 ls) = true ->
+  tsem (s_tk s') = (d_bits (dsem_layers dom (DS [] 0 []) ls), d_constr (dsem_layers dom (DS [] 0 []) ls)).
+Proof. exact TkRouting.to_tk_routing_layers. Qed.
+Print Assumptions to_tk_routing_layers.
+
+(* (2) from_tk with the repaired make_units_adjacent, well-formed commands (existing, pairwise
+   distinct qubits; a Measure names one qubit, a gate as many as its arity), ANY post-selection:
+   the trace of the imported circuit is, in command order, every gate on the wires carrying the
+   qubits the command names and every measurement that is not post-selected on its qubit,
+   followed by the post-selected measurements in qubit order ("post selection happens at the end"). *)
+Theorem from_tk_refines_trace_general : forall fx t sid c,
+  fx33 fx = true -> cmds_wf (t_nq t) (t_cmds t) = true ->
+  from_tk fx t sid = Ok c ->
+  qtrace c = Some (QS [] (t_nq t)
+                      (flat_map (cmd_events (t_psel t)) (t_cmds t) ++
+                       map EMeas (filter (has_key (bras_of (t_psel t) (t_cmds t) [])) (seq 0 (t_nq t))))).
+Proof. exact from_tk_trace_general. Qed.
+Print Assumptions from_tk_refines_trace_general.
+
+(* without post-selection: the statement of TkLemmas (from_tk_trace_ok), import counterpart of
+   to_tk_refines_trace *)
+Theorem from_tk_refines_trace : forall fx, fx33 fx = true -> from_tk_refines_trace_wf_stmt fx.
+Proof. exact from_tk_refines_trace_wf. Qed.
+Print Assumptions from_tk_refines_trace.
+
+(* from_tk_refines_trace_stmt as stated in TkLemmas (hypothesis cmds_in_range only) is false for
+   every setting of the switches: (i) a well-formed circuit with a post-selected mid-circuit
+   measurement followed by a gate on the same qubit -- the Bra is placed after the gate (finding);
+   (ii) a malformed command CX(0, 0) *)
+Theorem from_tk_refines_trace_refuted_postselection : forall fx, ~ from_tk_refines_trace_stmt fx.
+Proof. exact TkRouting.from_tk_refines_trace_refuted_postselection. Qed.
+Print Assumptions from_tk_refines_trace_refuted_postselection.
+Theorem from_tk_postselection_order_witness :
+  cmds_wf 1 (t_cmds psel_midcircuit_witness) = true /\
+  exists c, from_tk repaired psel_midcircuit_witness None = Ok c /\
+            option_map q_events (qtrace c) = Some [EGate g_X (Dy 0 0) [0]; EMeas 0] /\
+            flat_map want_events (t_cmds psel_midcircuit_witness) = [EMeas 0; EGate g_X (Dy 0 0) [0]].
+Proof. exact TkRouting.from_tk_postselection_order_witness. Qed.
+Print Assumptions from_tk_postselection_order_witness.
+Theorem from_tk_refines_trace_refuted_malformed : forall fx, ~ from_tk_refines_trace_stmt fx.
+Proof. exact TkRouting.from_tk_refines_trace_refuted_malformed. Qed.
+Print Assumptions from_tk_refines_trace_refuted_malformed.
